@@ -405,6 +405,19 @@ pub fn tri_le_f(a: f64, b: f64, strict: bool) -> Tri {
         Tri::U
     }
 }
+/// a replay-supplied value for a named constant of the scalar (EPS, PI); recorded among the run's inputs so that the
+/// replay file reproduces the run
+fn supplied(name: &str) -> Option<String> {
+    with(|e| match e.inputs.get(name).cloned() {
+        Some(v) if !v.is_empty() => {
+            if !e.drawn.iter().any(|(n, _)| n == name) {
+                e.drawn.push((name.to_string(), v.clone()));
+            }
+            Some(v)
+        }
+        _ => None,
+    })
+}
 fn draw(name: &str) -> String {
     // replay value if supplied, else a seeded draw from a boundary-friendly distribution
     with(|e| {
@@ -545,8 +558,10 @@ impl RealPrim for Cn {
         match name {
             // the scalar's epsilon is a parameter of the generic code: a replay supplies the solver model's value
             // (any value in (0, 2^-20] is a legitimate instantiation), otherwise f64's
-            "EPS" => match with(|e| e.inputs.get("EPS").cloned()) { Some(v) if !v.is_empty() => Cn::parse(&v), _ => Cn::Q(1, 1i128 << 52) },
-            "PI" => Cn::F(std::f64::consts::PI),
+            "EPS" => match supplied("EPS") { Some(v) => Cn::parse(&v), _ => Cn::Q(1, 1i128 << 52) },
+            // likewise PI: every float type's PI is a rational near pi, so a replay may instantiate it with the model's
+            // value (the driver passes it only for paths without trigonometric atoms, whose native evaluation is pi-periodic)
+            "PI" => match supplied("PI") { Some(v) => Cn::parse(&v), _ => Cn::F(std::f64::consts::PI) },
             "E" => Cn::F(std::f64::consts::E),
             _ => panic!("Cn::named {}", name),
         }
